@@ -10,10 +10,18 @@ import (
 	"strings"
 
 	"github.com/mutagen-io/mutagen/pkg/daemon"
+	"github.com/mutagen-io/mutagen/pkg/verif"
 )
+
+type lockResult struct {
+	lock *daemon.Lock
+	err  error
+}
 
 func main() {
 	var lock *daemon.Lock
+	var pending chan lockResult
+	var pendingProceed chan struct{}
 	in := bufio.NewScanner(os.Stdin)
 	out := bufio.NewWriter(os.Stdout)
 	reply := func(format string, args ...any) {
@@ -37,6 +45,53 @@ func main() {
 				reply("denied %v", err)
 			} else {
 				lock = l
+				reply("acquired")
+			}
+		case "acquire-begin":
+			// Run AcquireLock up to the point where the lock file is open but
+			// the lock system call has not been made, and stop there.
+			if lock != nil || pending != nil {
+				reply("already")
+				continue
+			}
+			reached, proceed := make(chan struct{}), make(chan struct{})
+			verif.YieldHook = func(site string) {
+				if site == "locking.lock" {
+					close(reached)
+					<-proceed
+				}
+			}
+			result := make(chan lockResult, 1)
+			go func() {
+				l, err := daemon.AcquireLock()
+				result <- lockResult{l, err}
+			}()
+			select {
+			case <-reached:
+				pending, pendingProceed = result, proceed
+				reply("paused")
+			case r := <-result:
+				verif.YieldHook = nil
+				if r.err != nil {
+					reply("denied %v", r.err)
+				} else {
+					lock = r.lock
+					reply("acquired")
+				}
+			}
+		case "acquire-finish":
+			if pending == nil {
+				reply("notpending")
+				continue
+			}
+			close(pendingProceed)
+			r := <-pending
+			pending, pendingProceed = nil, nil
+			verif.YieldHook = nil
+			if r.err != nil {
+				reply("denied %v", r.err)
+			} else {
+				lock = r.lock
 				reply("acquired")
 			}
 		case "release":
